@@ -611,7 +611,7 @@ func cmdCheck(args []string) {
 		a := r.agg
 		total.Runs += a.Runs
 		total.Steps += a.Steps
-		total.SimTimeNs += a.SimTimeNs
+		total.SimTimeNs = satAdd(total.SimTimeNs, a.SimTimeNs)
 		for k, v := range a.Counters {
 			total.Counters[k] += v
 		}
@@ -1014,7 +1014,7 @@ func writeEvidence(id, tier string, seed uint64, spec *checkSpec, md *meta, t *a
 		"runs_per_hour":          int64(runsPerHour),
 		"seeds_per_hour":         int64(runsPerHour),
 		"scheduler_steps":        t.Steps,
-		"simulated_time_s":       float64(t.SimTimeNs) / 1e9,
+		"simulated_time_s":       float64(t.SimTimeNs) / 1e9, // saturates at about 9.2e9 s (292 years)
 		"faults_fired":           faults,
 		"probes":                 probes,
 		"counters":               other,
@@ -1069,4 +1069,14 @@ func writeEvidence(id, tier string, seed uint64, spec *checkSpec, md *meta, t *a
 	if err := os.WriteFile(filepath.Join(evDir, id+".json"), b, 0o644); err != nil {
 		infra("evidence write: %v", err)
 	}
+}
+
+func satAdd(a, b int64) int64 {
+	if b < 0 {
+		b = 0
+	}
+	if a > (1<<63-1)-b {
+		return 1<<63 - 1
+	}
+	return a + b
 }
